@@ -397,4 +397,42 @@ inline Outcome judge_returned(const Caller &c, const context_api::Context &out, 
   return o;
 }
 
+// Extract is a function of the carrier and the context it is given.  It is run twice, each time over a stack
+// that was first filled with a different byte pattern; an outcome that differs between the two runs was computed
+// from memory the propagator never initialised (ids decoded into a buffer that an early return left untouched,
+// say).  Sanitizers do not see that: the bytes are addressable.  Returns the first run's context.
+__attribute__((noinline)) inline void scribble_stack(unsigned char pat)
+{
+  volatile unsigned char buf[12288];
+  for (size_t i = 0; i < sizeof buf; ++i)
+    buf[i] = pat;
+  __asm__ volatile("" ::: "memory");
+}
+template <class Prop, class Carrier>
+inline context_api::Context extract_stable(Prop &prop, Carrier &c, const Caller &caller, const std::string &cls,
+                                           const std::string &shown)
+{
+  auto &R = vf::report();
+  scribble_stack(0xA5);
+  context_api::Context out1 = prop.Extract(c, const_cast<context_api::Context &>(caller.ctx));
+  scribble_stack(0x3C);
+  context_api::Context out2 = prop.Extract(c, const_cast<context_api::Context &>(caller.ctx));
+  bool i1 = !(out1 == caller.before), i2 = !(out2 == caller.before);
+  R.count("extracts_repeated_over_scribbled_stack");
+  if (i1 != i2)
+    R.violation("extract-deterministic", cls,
+                std::string("the same carrier and context were ") + (i1 ? "accepted" : "refused") + " the first time and " +
+                    (i2 ? "accepted" : "refused") + " the second; " + shown);
+  else if (i1)
+  {
+    auto a = trace_api::GetSpan(out1)->GetContext();
+    auto b = trace_api::GetSpan(out2)->GetContext();
+    if (!(a.trace_id() == b.trace_id()) || !(a.span_id() == b.span_id()) || a.trace_flags().flags() != b.trace_flags().flags() ||
+        a.IsRemote() != b.IsRemote())
+      R.violation("extract-deterministic", cls,
+                  "two extractions of the same carrier gave " + show_sc(a) + " and " + show_sc(b) + "; " + shown);
+  }
+  return out1;
+}
+
 }  // namespace vfp
